@@ -37,7 +37,8 @@ type W struct {
 	// also through plain assignment, so the sender does not touch them after
 	// send), and/or all coroutines are spawned from inside another coroutine.
 	ArrayPayload bool `json:"array_payload,omitempty"`
-	// Payload: "" strings, "int" unique integers, "float" unique non-integral floats (L2 only)
+	// Payload: "" strings, "int" unique integers, "float" unique non-integral floats,
+	// "loopint" the counter variable of the producer's for loop (L2 only)
 	Payload string `json:"payload,omitempty"`
 	Nested  bool   `json:"nested_spawn,omitempty"`
 	Twin    bool   `json:"twin,omitempty"`
@@ -126,7 +127,7 @@ func gen(r *verifsim.Rng, tier string) (any, hx.Sched) {
 		w.ArrayPayload = r.Intn(3) == 0
 		w.Nested = r.Intn(4) == 0
 		if !w.ArrayPayload {
-			w.Payload = verifsim.Pick(r, []string{"", "", "int", "float"})
+			w.Payload = verifsim.Pick(r, []string{"", "", "int", "float", "loopint"})
 		}
 		// the interpreter passes thousands of yield points per operation:
 		// keep preemptions sparse outside the focus files
